@@ -455,9 +455,12 @@ public:
     {
       throw KVStoreException("KVStore is shut down");
     }
-    if (_kv.find(key) == _kv.end())
+    if (_kv.find(key) == _kv.end() || isExpiredLocked(key))
     {
-      return; // silent no-op on absent key
+      // silent no-op on an absent key; a key whose expiry has already passed is
+      // absent for every reader, so it must not be revived here just because the
+      // eviction worker has not removed it yet.
+      return;
     }
     startTtlOrCleanup(lock);
 
@@ -529,6 +532,10 @@ public:
     if (_expiry.find(key) == _expiry.end())
     {
       return; // already permanent
+    }
+    if (isExpiredLocked(key))
+    {
+      return; // expired-not-yet-evicted: absent for every reader, do not revive it
     }
 
     cancelTimerLocked(key);
@@ -823,6 +830,14 @@ private:
   static std::chrono::system_clock::time_point fromEpochMs(std::int64_t ms)
   {
     return std::chrono::system_clock::time_point(std::chrono::milliseconds(ms));
+  }
+
+  /// \brief True if the key carries an expiry that has already passed (it is
+  /// expired-not-yet-evicted, i.e. absent for every reader). Caller holds _mutex.
+  bool isExpiredLocked(const std::string &key) const
+  {
+    auto eit = _expiry.find(key);
+    return eit != _expiry.end() && eit->second.expiry <= std::chrono::system_clock::now();
   }
 
   static bool isPlausibleEpochMs(std::int64_t ms)
